@@ -158,4 +158,30 @@ TypeSpanSeqs == [tp \in 1..Len(Templates) |-> SetToSeq(TypeSpans[tp])]
 ByteSpans(tp, toks, gap) ==
   LET S == TypeSpanSeqs[tp] IN
   IF Len(S) = 0 THEN <<>> ELSE LET st == StartsAcc(toks, gap, 1, <<>>) IN [k \in 1..Len(S) |-> RegionBytes(toks, gap, st, S[k])]
+\* ---- CREATED endings: files whose LAST token belongs to a node that an EARLIER rule of the same configuration created
+\* (a node without tokens: the comment / whitespace rules and append_text_comment then have to create its token).  <<pre, file>>:
+\* `pre` = the earlier rules; the code tokens written for [pre, R] must be those written for [pre] alone, for every rule R of C18.
+Inj(v) == "{ rule: 'inject_global_value', identifier: 'INJ', value: " \o v \o " }"
+InjValues == << "false", "true", "null", "0.5", "-1", "'x'" >>
+InjEndings == << "local a = INJ", "return INJ", "return a, INJ", "return not INJ", "a.b = INJ", "return (INJ)", "return {INJ}", "return f(INJ)",
+                 "return a and INJ", "return if a then 1 else INJ", "return INJ :: any", "for i = 1, 2 do a = INJ break end", "a = INJ;",
+                 "return function() return INJ end", "repeat until INJ", "return ..., INJ" >>
+OtherCreated == <<
+  <<"'compute_expression'", "return 1 == 2">>, <<"'compute_expression'", "return not true">>, <<"'compute_expression'", "return 1 + 1">>,
+  <<"'compute_expression'", "return 'a' .. 'b'">>, <<"'compute_expression'", "local a = 2 > 1">>, <<"'compute_expression'", "return not nil, 2 ^ 2">>,
+  <<"'compute_expression'", "return if true then nil else 1">>, <<"'compute_expression'", "a.b = 1 < 2;">>,
+  <<"'convert_index_to_field'", "return a['b']">>, <<"'convert_index_to_field'", "a['b'] = a['c']">>, <<"'convert_index_to_field'", "return {['k'] = 1}">>,
+  <<"'remove_nil_declaration'", "local a = nil">>, <<"'remove_compound_assignment'", "a += 1">>, <<"'remove_compound_assignment'", "a.b ..= 'x'">>,
+  <<"'remove_types'", "return a :: any">>, <<"'remove_types'", "local a: number = 1">>, <<"'remove_types'", "type T = number">>,
+  <<"'remove_if_expression'", "return if a then 1 else 2">>, <<"'remove_interpolated_string'", "return `a{b}`">>, <<"'remove_floor_division'", "return a // b">>,
+  <<"'remove_floor_division'", "a //= 2">>, <<"'convert_luau_number'", "return 0b101">>, <<"'convert_luau_number'", "return 1_000">>,
+  <<"'group_local_assignment'", "local a = 1 local b = 2">>, <<"'remove_method_call'", "return a:b()">>, <<"'convert_square_root_call'", "return math.sqrt(a)">>,
+  <<"'remove_assertions'", "assert(a)">>, <<"'remove_assertions'", "return assert(a)">>, <<"'remove_debug_profiling'", "debug.profileend()">>,
+  <<"'remove_continue'", "for i = 1, 2 do if a then continue end end">>, <<"'convert_local_function_to_assign'", "local function f() end">>,
+  <<"'remove_unused_if_branch'", "if true then return 1 else return 2 end">>, <<"'remove_empty_do'", "a = 1 do end">>,
+  <<"'remove_unused_variable'", "a = 1 local u = 2">>, <<"'remove_function_call_parens'", "return f('x')">>, <<"'remove_function_call_parens'", "f({})">> >>
+CreatedEndings == [k \in 1..(Len(InjValues) * Len(InjEndings)) |->
+                     << Inj(InjValues[((k - 1) % Len(InjValues)) + 1]), "local z = 1\n" \o InjEndings[((k - 1) \div Len(InjValues)) + 1] \o "\n" >>]
+                  \o [k \in 1..Len(OtherCreated) |-> << OtherCreated[k][1], "local z = 1\n" \o OtherCreated[k][2] \o "\n" >>]
+
 =============================================================================
